@@ -50,7 +50,8 @@ def generate(seed, tier):
             ops.append({'op': 'relay_tx', 'spec': LC.gen_tx_spec(rng), 'peer': rng.randrange(3)})
         elif x < 0.9:
             m = LC.gen_mine(rng, latest_bias=0.7, max_txs=2)
-            m.update({'op': 'relay_block', 'peer': rng.randrange(3), 'ahead': rng.choice([0, 0, 0, 10, 29, 30])})
+            m.update({'op': 'relay_block', 'peer': rng.randrange(3), 'ahead': rng.choice([0, 0, 0, 10, 29, 30]),
+                      'route': rng.choice(['relay', 'relay', 'response']), 'mine_pool': rng.random() < 0.5})
             ops.append(m)
         elif x < 0.95:
             ops.append({'op': 'relay_invalid_block', 'kind': rng.choice(['reward_plus_one', 'sig_other_key', 'ts_equal_parent', 'ev_sample']),
@@ -132,7 +133,7 @@ def execute(script):
 
         assembled = {}       # miner id -> dict(served head id at assembly, key handed out, pool at assembly)
         found_ids = set()
-        stop = {'now': False}
+        stop = {'now': False, 'rollback_seen': False}
 
         def sync_shadow():
             """Blocks the node accepted from peers (all honest here) enter the reference in the node's order."""
@@ -181,7 +182,22 @@ def execute(script):
                 # scrypt_output
                 summary, height, txs = watcher.mining_args[miner_id]
                 info = assembled.get(miner_id, {})
-                ev = consensus.construct_pow_evidence_after_scrypt(data, watcher.coinstate, summary, height, txs)
+                try:
+                    ev = consensus.construct_pow_evidence_after_scrypt(data, watcher.coinstate, summary, height, txs)
+                except Exception:
+                    # the evidence cannot be completed on the watcher's current state: the real handler does the same call
+                    rolled_back = summary.previous_block_hash not in w.cm.coinstate.block_by_hash
+                    try:
+                        watcher.handle_received_message(item)
+                        err = None
+                    except Exception as e:
+                        err = e
+                    if err is not None:
+                        res.violate(PROP, 'C12/own-block-rejected', 'the miner-output handler raised %s for a candidate whose parent is no '
+                                    'longer in the chain state' % type(err).__name__,
+                                    {'candidate_parent_rolled_back': rolled_back, 'error': type(err).__name__})
+                        stop['now'] = True
+                    return
                 cand = Block(BlockHeader(summary, ev), txs)
                 found = cand.hash() < cand.target
                 res.bump('hashes_returned')
@@ -227,6 +243,18 @@ def execute(script):
                 key_before = watcher.public_key
                 unused_before = list(wallet.unused_public_keys)
                 lost = set(w.cm.coinstate.block_by_hash.keys()) - set(watcher.coinstate.block_by_hash.keys())
+                # blocks the node has rolled back since the watcher took its copy of the state
+                resurrected = set(watcher.coinstate.block_by_hash.keys()) - set(w.cm.coinstate.block_by_hash.keys())
+                # can the found block be stored at all?  its ancestors must be in the store or still in its write buffer
+                rows0 = {r[0] for r in node.store.sql('select block_hash from chain')}
+                buffered0 = {b_.hash() for b_ in node.store.write_buffer}
+                cur_, dropped = parent_id, False
+                while cur_ in chain.blocks and cur_ not in rows0:
+                    if cur_ not in buffered0:
+                        dropped = True
+                        break
+                    cur_ = chain.blocks[cur_].parent.id if chain.blocks[cur_].parent is not None else None
+                stuck = bool(getattr(node.store.connection, 'in_transaction', False))   # an earlier failed flush left it open
                 try:
                     watcher.handle_received_message(item)
                     err = None
@@ -234,7 +262,9 @@ def execute(script):
                     err = e
                 if err is not None:
                     res.violate(PROP, 'C12/own-block-rejected', 'the found-block handler raised %s: %s' % (type(err).__name__, err),
-                                {'head_time_minus_clock': head_ahead})
+                                {'head_time_minus_clock': head_ahead, 'ancestor_dropped_from_store_buffer': dropped,
+                                 'store_transaction_left_open_after_rollback': stuck and stop['rollback_seen'],
+                                 'error': type(err).__name__})
                     stop['now'] = True
                     return
                 served = w.cm.coinstate
@@ -244,7 +274,9 @@ def execute(script):
                     stop['now'] = True
                     return
                 if not stale and served.current_chain_hash != bid:
-                    res.violate(PROP, 'C12/found-block-not-head', 'the found block extends the served head but is not the head')
+                    res.violate(PROP, 'C12/found-block-not-head', 'the found block extends the served head but is not the head',
+                                {'watcher_state_has_rolled_back_blocks': bool(resurrected),
+                                 'head_is_rolled_back_block': served.current_chain_hash in resurrected})
                     stop['now'] = True
                     return
                 if lost and any(x not in served.block_by_hash for x in lost):
@@ -334,6 +366,10 @@ def execute(script):
                 sync_shadow()
                 rb = sim.parent_of(op.get('tip', -1))
                 txs, _, _ = sim.build_txs(rb, op.get('txs', []))
+                if op.get('mine_pool'):
+                    # the peer's block confirms what is pending here (extends the served head)
+                    rb = chain.blocks[w.cm.coinstate.current_chain_hash]
+                    txs = [t for t in w.cm.transaction_pool][:3]
                 clock = w.node_clock()
                 ts = rb.ts + max(1, op.get('dt', 60))
                 if op.get('ahead'):
@@ -346,7 +382,7 @@ def execute(script):
                 blk = W.roundtrip(W.mine_honest(W.view_at(sim.cs, rb.id), txs, W.key(op.get('miner', 0) % 12), ts))
                 c = w.conn(op.get('peer', 0))
                 if c is not None and rules.block_id(blk) not in chain.blocks:
-                    c.send(M.DataMessage(M.DATA_BLOCK, blk))
+                    c.send(M.DataMessage(M.DATA_BLOCK, blk), in_response_to=(0 if op.get('route', 'relay') == 'relay' else 9))
                     if op.get('ahead'):
                         # processed within the same virtual second: the head stays ahead of the clock
                         w.k.run(w.k.now + 700)
@@ -365,9 +401,13 @@ def execute(script):
                 if made is not None and made[0].header.summary.timestamp <= w.node_clock() + 20:
                     c = w.conn(op.get('peer', 0))
                     if c is not None:
+                        ids_before = set(w.cm.coinstate.block_by_hash.keys())
                         c.send(M.DataMessage(M.DATA_BLOCK, made[0]))
                         w.settle(2500)
                         res.bump('invalid_blocks_relayed')
+                        if ids_before - set(w.cm.coinstate.block_by_hash.keys()):
+                            stop['rollback_seen'] = True
+                            res.bump('probe:rollback_dropped_blocks')
             elif kind == 'clock':
                 w.settle(op.get('dt', 1000))
             # whatever happens afterwards, a block this node found stays in the chain state it serves
@@ -401,6 +441,14 @@ def execute(script):
 
 def classify_known(script, violation):
     d = violation.get('data', {})
+    if violation['cls'] == 'C12/own-block-rejected' and d.get('ancestor_dropped_from_store_buffer') and d.get('error') in ('IntegrityError', 'OperationalError'):
+        return 'rollback_while_candidate_outstanding'
+    if violation['cls'] == 'C12/own-block-rejected' and d.get('candidate_parent_rolled_back') and d.get('error') == 'KeyError':
+        return 'rollback_while_candidate_outstanding'
+    if violation['cls'] == 'C12/own-block-rejected' and d.get('store_transaction_left_open_after_rollback') and d.get('error') == 'OperationalError':
+        return 'rollback_while_candidate_outstanding'
+    if violation['cls'] == 'C12/found-block-not-head' and d.get('head_is_rolled_back_block'):
+        return 'rollback_while_candidate_outstanding'
     if violation['cls'] in ('C12/own-block-rejected', 'C12/assembled-block-breaks-rule') and d.get('head_time_minus_clock', 0) >= 30:
         rules_broken = [r[1] for r in d.get('rules', [])]
         if violation['cls'] == 'C12/own-block-rejected' or rules_broken == ['timestamp-too-far-ahead']:
